@@ -124,6 +124,21 @@ def impl(case):
                     want = {0: 'Input', 1: 'Output', 2: 'IOPort'}[k]
                     if kind != want and fail is None:
                         fail = ('constructor', 'open op %d called %s' % (k, kind))
+                # the property's precedence, stated directly: an explicit (non-empty) name reaches every constructor, an explicit api keyword
+                # reaches every constructor; without a name the environment variable is used when use_environ is set
+                if fail is None:
+                    got_names = [e[1] for e in ev]
+                    got_apis = [e[2].get('api') for e in ev]
+                    if name:
+                        if any(n != name for n in got_names):
+                            fail = ('explicit-name-lost', 'open op %d with the explicit name %r constructed ports named %r' % (k, name, got_names))
+                    elif name is None and ue:
+                        envs = {0: [tok(ei)], 1: [tok(eo)], 2: ([tok(eio)] if (native or tok(eio)) else [tok(ei), tok(eo)])}[k]
+                        envs = envs * (len(got_names) // len(envs)) if envs else envs
+                        if all(envs) and got_names != envs:
+                            fail = ('environment-name-lost', 'open op %d without a name constructed ports named %r, the environment says %r' % (k, got_names, envs))
+                    if akw >= 0 and tok(akw) and any(a != tok(akw) for a in got_apis):
+                        fail = ('explicit-api-lost', 'open op %d with api=%r passed api %r' % (k, tok(akw), got_apis))
                 port.close()
             elif k in (3, 4, 5):
                 akw = ops[i + 1]
